@@ -120,11 +120,12 @@ pub fn c10(ctx: &mut Ctx) {
                 return;
             }
             let img = wire::encode(&p);
-            let before = l.hist.get("class: must-accept").copied().unwrap_or(0);
-            sdes_case(&img, l);
-            if l.hist.get("class: must-accept").copied().unwrap_or(0) == before {
+            // self-check of the reference model alone (the subject is not involved): its tokeniser must call its
+            // encoder's image well-formed
+            if !read::framing_defects(&img, Some(202), 4).is_empty() || read::sdes_tokenise(&img).class != SdesClass::MustAccept {
                 crate::engine::run::machinery_failure(&format!("the reference tokeniser does not classify the reference encoder's own SDES image as well-formed: {}", hex_short(&img)));
             }
+            sdes_case(&img, l);
         });
     }
     ctx.require_hit("class: must-accept");
